@@ -11,6 +11,11 @@ from common import is_err
 FD_OK = {"bool", "int32", "int64", "uint32", "uint64", "sint32", "sint64", "fixed32", "sfixed32", "fixed64", "sfixed64", "string", "bytes"}
 
 
+WIRE_OF = {"enum": 0, "bool": 0, "int32": 0, "int64": 0, "uint32": 0, "uint64": 0, "sint32": 0, "sint64": 0,
+           "fixed64": 1, "sfixed64": 1, "double": 1, "fixed32": 5, "sfixed32": 5, "float": 5,
+           "string": 2, "bytes": 2, "message": 2, "map": 2}
+
+
 def oneof_schema(rng):
     """schemas rich in oneof groups (members: scalars, strings, bytes, enums, messages, wkt, wrappers)"""
     for _ in range(100):
@@ -45,6 +50,13 @@ def gen_op(rng, schema, ci, classes, depth=2):
                 parts.append(bytes(bpgen.to_py(v, classes)))
             except Exception:
                 pass
+        if members and rng.random() < 0.35:
+            # a oneof member's NUMBER with a wire type that does not fit its declared type: kept as an unknown field,
+            # it must not select that member (nor disturb the selected one)
+            f = md.fields[rng.choice(members)]
+            bad = rng.choice([wt for wt in (0, 1, 2, 5) if wt != WIRE_OF.get(f.ty, 2)])
+            rec = betterproto.encode_varint(f.num << 3 | bad) + {0: b"\x07", 1: b"\x01" * 8, 2: b"\x02hi", 5: b"\x01" * 4}[bad]
+            parts.insert(rng.randrange(len(parts) + 1), rec)
         return ("parse", b"".join(parts))
     if r < 0.7:
         cand = [i for i, f in enumerate(md.fields) if f.ty in FD_OK and not f.repeated and not f.optional and f.ty != "map"]
@@ -101,7 +113,7 @@ def apply_op(m, op, schema, ci, classes, trk):
             m.parse(op[1])
             for num, wt, raw, payload, val in WS.split(op[1]):
                 i, f = trk.member_by_num(num)
-                if f is not None and f.group is not None:
+                if f is not None and f.group is not None and wt == WIRE_OF.get(f.ty, 2):
                     trk.sel[f.group] = i
         elif op[0] == "fd":
             kw = {md.fields[i].name: bpgen.to_py(v, classes, md.fields[i].ty) for i, v in op[1]}
@@ -143,7 +155,9 @@ def check_exclusive(chk, inp, m, schema, ci, trk):
     except Exception as e:
         chk.fail("bytes-raises-in-history", inp, repr(e))
         return
-    nums = [r[0] for r in recs]
+    # a member counts as "on the wire" only through a record of ITS wire type (a record with its number and another
+    # wire type is an unknown field the instance may legitimately carry and re-emit)
+    onwire = {(r[0], r[1]) for r in recs}
     try:
         keys = set(m.to_dict(casing=betterproto.Casing.SNAKE).keys())
     except Exception as e:
@@ -163,7 +177,7 @@ def check_exclusive(chk, inp, m, schema, ci, trk):
                     getattr(m, f.name)
                 except AttributeError:
                     chk.fail("selected-member-raises", inp, f.name)
-                if f.num not in nums:
+                if (f.num, WIRE_OF.get(f.ty, 2)) not in onwire:
                     chk.fail("selected-member-not-on-wire", inp, "%s bytes=%s" % (f.name, bytes(m).hex()))
                 if keys is not None and f.name not in keys:
                     chk.fail("selected-member-not-in-json", inp, "%s keys=%r" % (f.name, keys))
@@ -173,7 +187,7 @@ def check_exclusive(chk, inp, m, schema, ci, trk):
                     chk.fail("unselected-member-readable", inp, f.name)
                 except AttributeError:
                     pass
-                if f.num in nums:
+                if (f.num, WIRE_OF.get(f.ty, 2)) in onwire:
                     chk.fail("unselected-member-on-wire", inp, "%s bytes=%s" % (f.name, bytes(m).hex()))
                 if keys is not None and f.name in keys:
                     chk.fail("unselected-member-in-json", inp, "%s keys=%r" % (f.name, keys))
